@@ -47,6 +47,7 @@ type Cfg struct {
 	CompatNames            bool // with NameStress: also names that need the compatible_names option (NewX, XArgs, XResult)
 	WideStructs            bool // some structs have 9-36 fields (more than one bookkeeping word of required-field bits)
 	ArgDefaults            bool // function arguments may carry default values (the grammar allows it)
+	ArgOptional            bool // some function arguments are written `optional` (the checker turns that into default requiredness); only for checks whose model applies the same rule
 	StructElems            bool // a third of the containers hold struct-likes
 	ArgRequired            bool // some function arguments are written `required`
 	FuncNamePool           bool // method names from a small pool: the same name in several services, names that contain each other
@@ -686,6 +687,8 @@ func (g *gen) genFields(kind string) []*Field {
 			f.Req = ReqDefault
 			if g.cfg.ArgRequired && g.p(1, 6, "argrequired") {
 				f.Req = ReqRequired // `required` is legal in an argument list (and kept, unlike `optional`)
+			} else if g.cfg.ArgOptional && g.p(1, 4, "argoptional") {
+				f.Req = ReqOptional // legal, warned about, and normalised to default requiredness by the checker
 			}
 		case "throws":
 			f.Req = ReqDefault
